@@ -17,7 +17,7 @@ from ..model import AnalysisError, Func, Repo, dotted, is_name, norm, walk_shall
 from ..report import Ledger
 from ..sym import B, Const, Join, Lin, Lookup, Star, State, Str, Sym, SymExec, Tup, as_lin, NotNumeric
 from ..fold import try_fold
-from ..util import names_in
+from ..util import local_defs, names_in
 
 PROP = "C06"
 LEVEL = "proof"
@@ -414,6 +414,10 @@ def run(repo: Repo, L: Ledger, tier: str):
                             if t_ is fmt or fmt.qualname in repo.reachable_from([t_]):
                                 via_fmt = True
                     if via_fmt:
+                        continue
+                    if not any(isinstance(x, ast.Call) for x in ast.walk(gp.args[0])) and not any(isinstance(x, ast.Name) and local_defs(fn, x.id) and any(isinstance(y, ast.Call) for d_ in local_defs(fn, x.id) for y in ast.walk(d_)) for x in ast.walk(gp.args[0])):
+                        okh = False
+                        L.fail("O9", f"{fn.short}:{h}", f"AGP file handle '{h}' is written with text assembled in place ('{norm(gp)[:60]}'), not by format_agp: the coordinate guarantees of the formatter do not cover this file", fn.loc(u))
                         continue
                     raise AnalysisError(f"{fn.short}: AGP file handle '{h}' is written with '{norm(gp)[:60]}': where that text comes from is not understood")
                 okh = False
